@@ -397,8 +397,11 @@ class Parser:
         """Check that the python version is high enough for a rule to apply."""
         if self.py_version >= min_version:
             return node
-        else:
-            raise SyntaxError(f"{error_msg} is only supported in Python {min_version} and above.")
+        msg = f"{error_msg} only supported in Python {min_version} and above."
+        first, last = (node[0], node[-1]) if isinstance(node, list) and node else (node, node)
+        if isinstance(first, ast.AST) and hasattr(first, "lineno"):
+            self.raise_syntax_error_known_range(msg, first, last)
+        self.raise_syntax_error(msg)
 
     def raise_indentation_error(self, msg: str) -> None:
         """Raise an indentation error."""
@@ -488,10 +491,16 @@ class Parser:
 
         return s.encode()[0]
 
+    def _eval_string(self, token: TokenInfo) -> Any:
+        try:
+            return ast.literal_eval(token.string)
+        except SyntaxError as e:  # e.g. non-ASCII bytes, bad \N{...}: report it where the literal is
+            self.raise_syntax_error_known_location(e.msg, token)
+
     def _concat_strings_in_constant(self, parts: list[TokenInfo]) -> ast.Constant:
-        s = ast.literal_eval(parts[0].string)
+        s = self._eval_string(parts[0])
         for ss in parts[1:]:
-            piece = ast.literal_eval(ss.string)
+            piece = self._eval_string(ss)
             if isinstance(piece, bytes) != isinstance(s, bytes):
                 self.raise_syntax_error_known_range("cannot mix bytes and nonbytes literals", parts[0], parts[-1])
             s += piece
